@@ -318,6 +318,10 @@ def w_si(ctx, rng, i):
         e = int(rng.integers(-15, 15))
         base = float(f"1e{e}")
         x = [base, np.nextafter(base, np.inf), np.nextafter(base, 0) if e > -15 else base][int(rng.integers(3))]
+        if rng.integers(2):    # ... and a few dozen ulps either side (log10 of such a value rounds to the integer: a prefix chosen from floor(log10 x) is wrong here)
+            x = base
+            for _ in range(int(rng.integers(1, 60))):
+                x = np.nextafter(x, 0 if e > -15 and i % 8 < 4 else np.inf)
     elif mode == 1:    # near the boundary from below (rounding up of the mantissa)
         e = int(rng.integers(-14, 16))
         x = float(f"1e{e}") * (1 - 10 ** rng.uniform(-9, -2))
@@ -344,7 +348,8 @@ def w_si(ctx, rng, i):
     ctx.check("si.roundtrip", abs(mant * scale - x) <= (0.5 * 10.0 ** (-k) * scale) * (1 + 1e-9) + abs(x) * 1e-12,
               f"si({x!r},{unit!r},{k}) = {s!r}: mantissa*10^{p} = {mant * scale!r} does not give back x to the printed precision")
     true_m = x / scale
-    ctx.check("si.prefix", (1 - 1e-12) <= true_m < 1000 * (1 + 1e-12) if x < 1e15 else true_m >= 1000 * (1 - 1e-12),
+    # the decade boundaries are the doubles 1e-15 … 1e12 themselves (si(1e-6) is '1.0 us' although the double 1e-6 lies below 10^-6): no slack
+    ctx.check("si.prefix", float(f"1e{p}") <= x and (x < float(f"1e{p + 3}") or p == 12),
               f"si({x!r}) = {s!r}: unrounded mantissa {true_m!r} outside [1,1000)")
     ctx.case(("si", unit, k, math.floor(math.log10(x)), mode), sample={"x": x, "unit": unit, "k": k, "out": s} if i < 6 else None)
     ctx.bin("si.decade", math.floor(math.log10(x) / 3) * 3)
